@@ -261,7 +261,7 @@ Definition verdict (c : case) : list nat :=
 (* ================================================================ structural random-effect histories
    (create_joint_distribution / split_joint_distribution / add_iiv / remove_iiv / add_iov / remove_iov ...):
    ORACLE ONLY - there is no model of update_random_variable_records behind these tags.  The class
-   predicates (tags 241..245) are evaluated here on exported facts; they are not guards of any theorem. *)
+   predicates (tags 241..246) are evaluated here on exported facts; they are not guards of any theorem. *)
 Record hdist := mkHD {
   hd_names : list text;                                   (* names of the etas / epsilons of the distribution *)
   hd_level : nat;                                         (* 0 IIV, 1 IOV, 2 RUV *)
@@ -325,6 +325,17 @@ Fixpoint multi_item_touched (recs : list node) (start prev : nat) (gone : list n
       || multi_item_touched tl (start + k) k gone
   end.
 
+(* 246: a record with a (v)xn repeat loses one of its random effects *)
+Fixpoint xn_item_touched (recs : list node) (start prev : nat) (gone : list nat) : bool :=
+  match recs with
+  | [] => false
+  | r :: tl =>
+      let k := rec_neta prev r in
+      (negb (is_block_record r) && existsb (has_rule r_n) (walk r)
+       && existsb (fun g => Nat.leb start g && Nat.ltb g (start + k)) gone)
+      || xn_item_touched tl (start + k) k gone
+  end.
+
 Definition hparams (l : list hdist) := flat_map (@hd_params) l.
 Definition hstep_verdict (c : hstep) : list nat :=
   let mem := hs_mem c in
@@ -365,8 +376,7 @@ Definition hstep_verdict (c : hstep) : list nat :=
          || multi_item_touched sigmas 1000 0 (hs_gone c) then [244] else [])
   ++ (if existsb (fun r => existsb (fun x => has_rule r_SD x || has_rule r_CORR x || has_rule r_CHOLESKY x) (walk r))
                (hs_before c) then [245] else [])
-  (* 246: some record contains a (v)xn repeat *)
-  ++ (if existsb (fun r => existsb (has_rule r_n) (walk r)) (hs_before c) then [246] else []).
+  ++ (if xn_item_touched omegas 0 0 (hs_gone c) || xn_item_touched sigmas 1000 0 (hs_gone c) then [246] else []).
 
 Inductive case2 := C1 (c : case) | CHist (c : hstep).
 Definition verdict2 (c : case2) : list nat :=
